@@ -268,6 +268,9 @@ def make_crit(rng, name, pos, R, admissible=True):
     elif name in ('mincost', 'minsqcost', 'mincostlsb'):
         k = rng.choice([0, 0, 1, 2, 2])
         ex = [rng.choice(MULTS) for _ in range(k)]
+        if k == 2 and rng.random() < 0.5:
+            # small unequal non-zero weights: both parts matter and trade off
+            ex = list(rng.choice([(1, 2), (2, 1), (1, 3), (3, 1), (2, 3), (3, 2), (1, 5), (5, 1), (2, 5), (5, 2), (3, 4), (4, 3)]))
     return [name, pos, ex]
 
 
@@ -383,3 +386,34 @@ def make_big_spec(rng, na=None):
         lec.append(random_groups(rng, studs, rng.choice(['none', 'low', 'mid', 'high', 'all'])))
     return {'na': spec['na'], 'ns': ns, 'np': np_, 'nl': nl, 'st': st, 'plq': plq, 'puq': puq, 'plec': plec,
             'llq': llq, 'lt': lt, 'luq': luq, 'lec': lec, 'shape': 'big'}
+
+
+def make_huge_id_spec(rng):
+    """Three-digit ids: 300 lecturers with two projects each (600 projects); the few
+    students only list projects of lecturers 258..300 (beyond CPython's small-int cache),
+    often two projects of one lecturer; capacities are tight so lecturers fill up."""
+    nl, np_ = 300, 600
+    plec = [j // 2 + 1 for j in range(np_)]
+    ns = rng.randint(2, 4)
+    lecs = rng.sample(range(258, 301), rng.randint(1, 3))
+    pool = [2 * k - 1 for k in lecs] + [2 * k for k in lecs]
+    st = []
+    for _ in range(ns):
+        k = rng.randint(2, min(4, len(pool)))
+        st.append(random_groups(rng, rng.sample(pool, k), rng.choice(['none', 'none', 'low', 'mid'])))
+    puq = [1] * np_
+    plq = [0] * np_
+    for p in pool:
+        puq[p - 1] = rng.choice([1, 1, 2])
+    luq = [2] * nl
+    for k in lecs:
+        luq[k - 1] = rng.choice([1, 1, 2])
+    llq = [0] * nl
+    lt = [rng.randint(0, u) for u in luq]
+    lec = []
+    for k in range(nl):
+        studs = [x + 1 for x in range(ns) if any(plec[p - 1] == k + 1 for g in st[x] for p in g)]
+        rng.shuffle(studs)
+        lec.append(random_groups(rng, studs, rng.choice(['none', 'low', 'all'])))
+    return {'na': 3, 'ns': ns, 'np': np_, 'nl': nl, 'st': st, 'plq': plq, 'puq': puq, 'plec': plec,
+            'llq': llq, 'lt': lt, 'luq': luq, 'lec': lec, 'shape': 'huge_ids'}
